@@ -184,6 +184,72 @@ pub fn record(cfg: Cfg, word: &[Op], dir: &Path, fault: Option<(usize, FaultKind
     .expect("record thread")
 }
 
+/// Record `word` on a store that is opened on the directory `initial` (a crash directory whose
+/// recovery by the real code has already been seen to work in a forked child). The log starts with
+/// the calls of that recovery.
+pub fn record_from(cfg: Cfg, word: &[Op], dir: &Path, initial: &BTreeMap<String, Vec<u8>>) -> Recorded {
+    let word = word.to_vec();
+    let dir = dir.to_path_buf();
+    let initial = initial.clone();
+    std::thread::spawn(move || {
+        iohook::set_seed(Some(cfg.seed));
+        write_dir(&dir, &initial);
+        iohook::rec_start(&dir.to_string_lossy());
+        let mut rec = Recorded { log: vec![], results: vec![], reads: vec![], fault_op: None, live_dir: BTreeMap::new(), open_failed: None };
+        let mut e = match Exec::open_existing(&dir, cfg) {
+            Ok(e) => e,
+            Err(m) => {
+                rec.open_failed = Some(m);
+                rec.log = iohook::rec_stop();
+                return rec;
+            }
+        };
+        iohook::rec_reset_count();
+        for (i, op) in word.iter().enumerate() {
+            iohook::rec_mark(format!("begin:{}", i));
+            let (got, _want) = e.step(*op);
+            let r = classify_ret(&got);
+            if r.starts_with("ok") {
+                iohook::rec_mark(format!("ack:{}", i));
+            }
+            rec.results.push(r);
+            if e.h.is_none() {
+                break;
+            }
+            rec.reads.push(KEYS.iter().map(|&k| e.get(k)).collect());
+        }
+        e.close();
+        rec.live_dir = list_dir(&dir);
+        rec.log = iohook::rec_stop();
+        iohook::set_seed(None);
+        rec
+    })
+    .join()
+    .expect("record thread")
+}
+
+/// Apply recorded calls on top of an existing directory image.
+pub fn materialize_from(base: &BTreeMap<String, Vec<u8>>, calls: &[Call]) -> BTreeMap<String, Vec<u8>> {
+    let mut files = base.clone();
+    for c in calls {
+        match c {
+            Call::Create { path, .. } => {
+                files.insert(path.clone(), vec![]);
+            }
+            Call::Write { path, data } => {
+                if let Some(f) = files.get_mut(path) {
+                    f.extend_from_slice(data);
+                }
+            }
+            Call::Unlink { path } => {
+                files.remove(path);
+            }
+            _ => {}
+        }
+    }
+    files
+}
+
 /// Run a *faulted* recording in a forked child: a fault can leave the store in a state in which
 /// an in-process reopen aborts the process. The child leaves the directory behind on tmpfs; only
 /// results and reads travel through the pipe.
@@ -535,6 +601,12 @@ pub fn plan(mode: &str, tier: Tier) -> Plan {
             cfgs.push(c);
         }
     }
+    {
+        // a limit that one small entry fills EXACTLY (27 bytes: neither below nor above it)
+        let mut c = Cfg::new(27, Thr::All, 1);
+        c.sync_always = sync;
+        cfgs.push(c);
+    }
     if mode == "fault" {
         // the fsync of every append is a fallible call, too
         let mut c = Cfg::new(60, Thr::All, 1);
@@ -542,6 +614,10 @@ pub fn plan(mode: &str, tier: Tier) -> Plan {
         cfgs.push(c);
     }
     if tier == Tier::Thorough {
+        // two small entries fill the file exactly
+        let mut c = Cfg::new(54, Thr::All, 1);
+        c.sync_always = sync;
+        cfgs.push(c);
         for thr in [Thr::Dead, Thr::All] {
             let mut c = Cfg::new(if thr == Thr::All { e1::MFS_BIG } else { 60 }, thr, 2);
             c.sync_always = sync;
@@ -858,6 +934,142 @@ fn run_crash(cx: &mut Ctx, cfg: Cfg, word: &[Op], power: bool, byte_granular: bo
     }
 }
 
+/// TWO crashes: a crash inside the last operation of `word1`, recovery, the continuation `cont`
+/// through the recovered store, a second crash at every call boundary of the continuation, recovery
+/// again. What the first recovery read (already judged by the single-crash enumeration) is the
+/// model the continuation starts from.
+fn run_double_crash(cx: &mut Ctx, cfg: Cfg, word1: &[Op], cont: &[Op]) {
+    let rec = record(cfg, word1, &cx.live, None);
+    if rec.open_failed.is_some() || rec.results.iter().any(|r| !r.starts_with("ok")) {
+        return; // reported by the single-crash pass
+    }
+    let live2 = cx.live.with_extension("second");
+    for upto in crash_positions(&rec.log, word1) {
+        let pre = &rec.log[..upto];
+        let files1 = materialize(pre, &BTreeMap::new());
+        write_dir(&cx.rdir, &files1);
+        let (acked1, inflight1) = model_at(&rec.log, upto, word1);
+        let infl1: Vec<Op> = inflight1.into_iter().collect();
+        let r1 = match recover_in_child(&cx.rdir, cfg, max_id_in(pre), 1) {
+            Ok(r) if r.error.is_none() && !r.reads.is_empty() => r,
+            _ => continue, // reported by the single-crash pass
+        };
+        if judge_reads(&r1.reads[0], &acked1, &infl1).is_some() {
+            continue; // reported by the single-crash pass
+        }
+        // the state the survivors see: the continuation's model starts here
+        let mut base = Kv::new();
+        for (i, &k) in KEYS.iter().enumerate() {
+            if let Ok(Some(v)) = &r1.reads[0][i] {
+                base.insert(key_bytes(k), v.clone());
+            }
+        }
+        let rec2 = record_from(cfg, cont, &live2, &files1);
+        cx.sh.transitions += cont.len() as u64;
+        let at1 = json!({"upto": upto, "after_call": pre.iter().rev().find(|c| c.is_mutating()).map(|c| c.short())});
+        let ctx_txt = |cx: &Ctx| format!("first crash {} of {}, recovered, then {} under {:?}", at1, show_word(word1), show_word(cont), cfg);
+        let case = |extra: Value| json!({"engine": "crash", "mode": "double", "cfg": cfg.to_json(), "word": word_json(word1), "cont": word_json(cont), "word_text": format!("{} || {}", show_word(word1), show_word(cont)), "at": {"first": at1, "second": extra}});
+        if let Some(m) = &rec2.open_failed {
+            cx.sh.violate(Violation { class: format!("{}:directory-cannot-be-opened", cx.prop), msg: format!("{} | {}", m, ctx_txt(cx)), case: case(json!(null)) });
+            continue;
+        }
+        if let Some(i) = rec2.results.iter().position(|r| !r.starts_with("ok")) {
+            cx.sh.violate(Violation { class: format!("{}:operation-fails-after-recovery", cx.prop), msg: format!("{} -> {} | {}", cont[i].show(), rec2.results[i], ctx_txt(cx)), case: case(json!({"op": i})) });
+            continue;
+        }
+        // the continuation itself, crash-free, reads as base + continuation
+        {
+            let mut m = base.clone();
+            for (i, op) in cont.iter().enumerate() {
+                apply(&mut m, *op);
+                if let Some(rd) = rec2.reads.get(i) {
+                    if let Some((c, msg)) = judge_reads(rd, &m, &[]) {
+                        cx.sh.violate(Violation { class: format!("{}:{}-after-recovery", cx.prop, c), msg: format!("after {}: {} | {}", op.show(), msg, ctx_txt(cx)), case: case(json!({"op": i})) });
+                    }
+                }
+            }
+        }
+        let max_id2 = max_id_in(pre).into_iter().chain(max_id_in(&rec2.log)).max();
+        let first_op = rec2.log.iter().position(|c| matches!(c, Call::Mark(m) if m == "begin:0")).unwrap_or(rec2.log.len());
+        let mut positions: Vec<usize> = (first_op..rec2.log.len()).filter(|&i| rec2.log[i].is_mutating()).collect();
+        positions.push(rec2.log.len());
+        for upto2 in positions {
+            let files2 = materialize_from(&files1, &rec2.log[..upto2]);
+            write_dir(&cx.rdir, &files2);
+            cx.sh.evaluations += 1;
+            let (acked2, inflight2) = model_at(&rec2.log, upto2, cont);
+            let _ = acked2;
+            // acked operations of the continuation applied to the base
+            let mut m = base.clone();
+            for c in &rec2.log[..upto2] {
+                if let Call::Mark(s) = c {
+                    if let Some(i) = s.strip_prefix("ack:") {
+                        apply(&mut m, cont[i.parse::<usize>().unwrap()]);
+                    }
+                }
+            }
+            let infl2: Vec<Op> = inflight2.into_iter().collect();
+            let mut fp = format!("double|{:?}|", cfg).into_bytes();
+            for (n, bts) in &files2 {
+                fp.extend_from_slice(n.as_bytes());
+                fp.extend_from_slice(&fnv(&strip_tstamps(n, bts)).to_le_bytes());
+            }
+            let fph = fnv(&fp);
+            cx.sh.states.insert(fph);
+            cx.sh.nontrivial.insert(fph);
+            let at2 = json!({"upto": upto2, "after_call": rec2.log[..upto2].iter().rev().find(|c| c.is_mutating()).map(|c| c.short())});
+            let r2 = recover_in_child(&cx.rdir, cfg, max_id2, 1);
+            let verdict: Option<(String, String)> = match &r2 {
+                Err(e) => Some((if e.contains("hang") { "recovery-hangs".into() } else { "recovery-aborts-the-process".into() }, e.clone())),
+                Ok(rv) => {
+                    if let Some(e) = &rv.error {
+                        Some((if e.contains("PANIC") { "recovery-panics".into() } else { "directory-cannot-be-opened".into() }, e.clone()))
+                    } else {
+                        rv.reads.first().and_then(|rd| judge_reads(rd, &m, &infl2))
+                    }
+                }
+            };
+            cx.sh.outcome(match &verdict {
+                Some((c, _)) => format!("double:{}", c),
+                None => "double:ok".into(),
+            });
+            if let Some((class, msg)) = verdict {
+                cx.sh.violate(Violation { class: format!("{}:{}[second-crash]", cx.prop, class), msg: format!("{} | second crash {} | {}", msg, at2, ctx_txt(cx)), case: case(at2.clone()) });
+            }
+            if cx.prop == "C14" {
+                if let Ok(rv) = &r2 {
+                    for (c, mm) in &rv.trace_violations {
+                        cx.sh.violate(Violation { class: c.clone(), msg: format!("{} | recovery of the second crash {} | {}", mm, at2, ctx_txt(cx)), case: case(at2.clone()) });
+                    }
+                }
+            }
+        }
+    }
+    rmrf(&live2);
+}
+
+/// (first history, continuation) pairs of the double-crash enumeration.
+fn double_crash_pairs(tier: Tier) -> Vec<(Vec<Op>, Vec<Op>)> {
+    let a1 = Op::Set(0, 0);
+    let b1 = Op::Set(1, 0);
+    let bb = Op::Set(1, 4);
+    let da = Op::Del(0);
+    let db = Op::Del(1);
+    let mut firsts: Vec<Vec<Op>> = vec![vec![Op::Merge], vec![a1, Op::Merge], vec![b1, Op::Merge], vec![bb, Op::Merge], vec![da, Op::Merge], vec![a1, b1, Op::Merge], vec![a1, bb, Op::Merge], vec![a1, da, Op::Merge], vec![bb], vec![a1, bb]];
+    let mut conts: Vec<Vec<Op>> = vec![vec![db, Op::Merge], vec![da, Op::Merge]];
+    if tier == Tier::Thorough {
+        firsts.extend(vec![vec![a1, Op::Set(0, 1), Op::Merge], vec![b1, db, Op::Merge], vec![a1, Op::Merge, Op::Merge], vec![a1, Op::Reopen, Op::Merge], vec![bb, a1, Op::Merge, da], vec![a1, b1]]);
+        conts.extend(vec![vec![Op::Merge], vec![a1, Op::Merge], vec![bb, Op::Merge], vec![db, Op::Merge, Op::Merge], vec![da, Op::Reopen, Op::Merge]]);
+    }
+    let mut out = vec![];
+    for f in &firsts {
+        for c in &conts {
+            out.push((f.clone(), c.clone()));
+        }
+    }
+    out
+}
+
 /// Drop the i64 timestamps so that fingerprints of directories do not depend on wall-clock time.
 fn strip_tstamps(name: &str, bytes: &[u8]) -> Vec<u8> {
     let mut out = bytes.to_vec();
@@ -1145,6 +1357,7 @@ fn classify_fault(class: &str, word: &[Op], fault_op: Option<usize>, call: &Call
         Some(Op::Set(_, 4)) | Some(Op::Set(_, 5)) => "big-set",
         Some(Op::Set(..)) => "set",
         Some(Op::Del(_)) => "del",
+        Some(Op::Fill(..)) | Some(Op::Drain(..)) => "bulk",
         None => "?",
     };
     format!("{}[{}-failed-in-{}]", class, what, opn)
@@ -1205,6 +1418,27 @@ pub fn worker(job: &Job) -> Shard {
             }
         }
     }
+    if (mode == "crash" || mode == "c14") && !sh.capped {
+        let pairs = double_crash_pairs(job.tier);
+        let mut cx = Ctx { sh: &mut sh, prop: &job.prop, live: scratch.join("live"), rdir: scratch.join("rec") };
+        let mut k = 0usize;
+        for cfg in &p.cfgs {
+            for (f, c) in &pairs {
+                k += 1;
+                if k % job.nshards != job.shard {
+                    continue;
+                }
+                if t0.elapsed().as_secs() > job.deadline_s {
+                    cx.sh.capped = true;
+                    cx.sh.notes.insert("time cap hit in the double-crash enumeration".into());
+                    break;
+                }
+                job.progress(&json!({"engine": "crash", "mode": "double", "cfg": cfg.to_json(), "word": word_json(f), "cont": word_json(c)}));
+                run_double_crash(&mut cx, *cfg, f, c);
+                cx.sh.count("double-crash-pairs", 1);
+            }
+        }
+    }
     rmrf(&scratch);
     sh
 }
@@ -1219,6 +1453,7 @@ pub fn replay(prop: &str, case: &Value) -> Vec<Violation> {
         let mut cx = Ctx { sh: &mut sh, prop, live: scratch.join("live"), rdir: scratch.join("rec") };
         match mode.as_str() {
             "crash" => run_crash(&mut cx, cfg, &word, false, false),
+            "double" => run_double_crash(&mut cx, cfg, &word, &word_from_json(&case["cont"]).unwrap_or_default()),
             "power" => run_crash(&mut cx, cfg, &word, true, true),
             "fault" => run_fault(&mut cx, cfg, &word, false),
             "space" => run_space(&mut cx, cfg, &word),
